@@ -33,8 +33,12 @@ COMMENTS = [
     "maximal conductance of the background calcium current, fitted to the data of reference 12; see text.",
     "aaaaaaaaaaaaaaaaaaaaaaaaaaaaaaaaaaaaaaaaaaaaaaaa!", "ms ) unbalanced", "1e400", "- 5", "*", "pi", "exp(1)", "Conditional(1,2,3)",
     "ümlaut µA", "mV   ", "   mV", "1/(ms*mV)", "kelvin**-1", "degC", "0", "-", "--", "a,b,c",
+    # characters that str.splitlines() / some editors treat as line ends but the grammar does not (vertical tab, form feed,
+    # file / group / record separators, NEL, LINE SEPARATOR, PARAGRAPH SEPARATOR), followed by something that looks like a statement
+    "before:\x0bi_old = 1", "page\x0cx = 2", "fs\x1cq_new = 3", "gs\x1dstates(u=1)", "rs\x1edx_dt = 0", "nel\x85i_old = 1",
+    "ls\u2028i_old = x", "ps\u2029parameters(k=1)",
 ]
-DESCRIPTIONS = ["membrane potential", "conductance of the \\\"late\\\" current", "rate (1/ms)", "it's a gate", "a, b; c", "50% block", ""]
+DESCRIPTIONS = ["membrane potential", "old\x0bvalue = 3", "see\u2028x = 1", "conductance of the \\\"late\\\" current", "rate (1/ms)", "it's a gate", "a, b; c", "50% block", ""]
 UNITS = ["mV", "ms", "1/ms", "uA/cm**2", "mM", "1", "nonsense_unit", "ms**-1"]
 
 
@@ -235,8 +239,8 @@ def main(argv=None):
         level="proof",
         rule="random models x 3 of 7 decorations (comment lines before / between declaration blocks, trailing comments, unit / description "
              "annotations, blank lines, indentation with spaces and tabs, CRLF, line continuation inside parentheses); comment texts from a "
-             "corpus of 46 strings (units, numbers, 1/0, unbalanced brackets, statements, hashes, quotes, long prose with punctuation, "
-             "non-ASCII); each decorated text is distinct; per-load time limit 20 s; three directed cases for the lexer-level known findings",
+             "corpus of 54 strings (units, numbers, 1/0, unbalanced brackets, statements, hashes, quotes, long prose with punctuation, "
+             "non-ASCII, and the eight characters other than \\n / \\r that str.splitlines() treats as line ends, each followed by statement-like text); each decorated text is distinct; per-load time limit 20 s; three directed cases for the lexer-level known findings",
         trusted_base=["Coq 8.16.1 kernel", "extraction + ocaml/driver.ml", "Lark lexer / LALR engine (outside the model; the items come from the real parse)"],
         assumptions=["placements inside a headed expressions block, directly after a block header, and empty trailing comments are known findings and are "
                      "only exercised by the directed cases"],
